@@ -312,6 +312,28 @@ def run(ck: vlib.Check):
                 ck.violation(f"{'action' if kind == 0 else 'condition'} type {key}: after a record that differs only in unused "
                              f"fields was decoded (and is still alive), encoding the plain twin gives different fields: {diff[:3]}",
                              {"kind": "state", "which": kind, "key": key, "plain": plain, "masked": masked, "difference": diff}, True)
+            # ... and a twin that differs in a USED field, the flags byte: the first object, kept by the caller, must still
+            # encode to its own record after the twin was decoded (no two decoded entries may share state)
+            other = dict(plain)
+            other["_flags"] = plain.get("_flags", 0) ^ 0x1F
+
+            def g(tcls=tcls, kind=kind, plain=plain, other=other):
+                b = tcls().decode(mk_record(kind, plain), probe.dctx)
+                e1 = enc(tcls().encode(b, probe.ectx))
+                keep_alive.append(tcls().decode(mk_record(kind, other), probe.dctx))
+                e2 = enc(tcls().encode(b, probe.ectx))
+                o2 = enc(tcls().encode(keep_alive[-1], probe.ectx))
+                b3 = tcls().decode(mk_record(kind, plain), probe.dctx)
+                o3 = enc(tcls().encode(keep_alive[-1], probe.ectx))
+                return None if (e1 == e2 and o2 == o3) else [e1, e2, o2, o3]
+            r = vlib.impl_result(g)
+            ck.evaluations += 1
+            if r[0] == 1 and r[1]:
+                x, y = (r[1][0], r[1][1]) if r[1][0] != r[1][1] else (r[1][2], r[1][3])
+                diff = [(a, b_) for a, b_ in zip(x, y) if a != b_]
+                ck.violation(f"{'action' if kind == 0 else 'condition'} type {key}: an entry decoded earlier and still held by the "
+                             f"caller encodes differently after another record of the same type (other flags byte) was decoded: {diff[:3]}",
+                             {"kind": "state", "which": kind, "key": key, "plain": plain, "masked": other, "difference": diff}, True)
     lines_gen, lines_spec, expect = [], [], []
     for kind, key, direction, payload, res in cases:
         op = 1 if direction == "dec" else 2
